@@ -38,6 +38,13 @@
    is written AFTER the Close frame (named deviation: NoDataAfterCloseOnWire).
    CloseLatch = TRUE is the repaired design: _write_websocket_frame refuses (raises).
 
+   Payload containers: Prog[s][i].buf = 0 is an immutable payload (bytes); buf = b > 0 is the caller's
+   mutable buffer b (bytearray / writable memoryview), which several messages may share (the same
+   object sent twice).  v.bufs[b] is what the buffer holds: "orig" = what the caller put there.  A
+   masking writer (Mask) XORs a COPY of the payload (MaskCopies = TRUE, the code); MaskCopies = FALSE
+   is a self-test mutant that masks a mutable buffer in place.  Every frame records the content it
+   was built from (PayloadIntact), and the caller's buffers are never changed (CallerBufferIntact).
+
    UseShield / SmallTakesLock = FALSE are self-test mutants (mechanism removed);
    OvrTakesLock = FALSE: only small frames with a per-message override skip the lock (a
    private compressor does not make the send independent: the frame still enters the
@@ -45,7 +52,7 @@
 EXTENDS Naturals, Sequences, FiniteSets, TLC
 
 CONSTANTS Senders, Prog, Compress, Takeover, MaxCancel, OverrideFix, CloseLatch, UseShield, SmallTakesLock,
-          OvrTakesLock
+          OvrTakesLock, Mask, MaskCopies
 
 VARIABLES v
 
@@ -57,6 +64,7 @@ IsCtl(m) == M(m).op # "data"
 Deflated(m) == ~IsCtl(m) /\ (Compress \/ M(m).ovr)
 Large(m) == M(m).size = "large"
 
+Bufs == {M(m).buf : m \in Msgs} \ {0}
 E(k, id) == [k |-> k, id |-> id]
 
 Init ==
@@ -71,6 +79,8 @@ Init ==
          wire |-> <<>>,                      \* frames in the order transport.write() saw them
          result |-> [m \in Msgs |-> "none"], \* how send_frame(m) ended: returned | cancelled | raised
          closing |-> FALSE,
+         bufs |-> [b \in Bufs |-> "orig"],     \* content of the caller's mutable buffers
+         seen |-> [m \in Msgs |-> "orig"],     \* content the compressor read for message m
          refused |-> {},                     \* messages whose frame write raised (CloseLatch)
          lateStart |-> {},                   \* messages whose send_frame was entered when closing was set
          ready |-> <<>>,
@@ -97,8 +107,9 @@ RemoveWaiter(st, w) == [st EXCEPT !.waiters = SelectSeq(@, LAMBDA x : x.w # w)]
 (* ------------------------------------------------------------ the compressor --- *)
 \* compressobj.compress(message): history the output refers to, and the context afterwards
 HistFor(st, m) == IF M(m).ovr THEN <<>> ELSE st.cctx
+Content(st, m) == IF M(m).buf = 0 THEN "orig" ELSE st.bufs[M(m).buf]
 Consume(st, m) ==
-    LET st1 == [st EXCEPT !.hist[m] = HistFor(st, m)] IN
+    LET st1 == [st EXCEPT !.hist[m] = HistFor(st, m), !.seen[m] = Content(st, m)] IN
     IF M(m).ovr
     THEN (IF OverrideFix THEN [st1 EXCEPT !.cctx = <<>>] ELSE st1)
     ELSE [st1 EXCEPT !.cctx = IF Takeover THEN Append(@, m) ELSE <<>>,
@@ -110,7 +121,10 @@ Write(st, m) ==
     IF Refuses(st, m) THEN [st EXCEPT !.refused = @ \cup {m}, !.comp = IF st.comp = m THEN None ELSE @]
     ELSE
     [st EXCEPT !.wire = Append(@, [id |-> m, op |-> M(m).op, rsv1 |-> Deflated(m), ovr |-> M(m).ovr,
-                                   hist |-> st.hist[m], late |-> m \in st.lateStart]),
+                                   hist |-> st.hist[m], late |-> m \in st.lateStart,
+                                   content |-> IF Deflated(m) THEN st.seen[m] ELSE Content(st, m)]),
+               \* masking: `message_arr = bytearray(message)` is a copy; without it the caller's buffer is XORed
+               !.bufs = IF Mask /\ ~MaskCopies /\ ~Deflated(m) /\ M(m).buf # 0 THEN [@ EXCEPT ![M(m).buf] = "scrambled"] ELSE @,
                !.comp = IF st.comp = m THEN None ELSE @,
                !.closing = IF M(m).op = "close" THEN TRUE ELSE @]
 
@@ -279,6 +293,10 @@ NothingAfterClose == \A i \in 1..Len(Wire) : Wire[i].late => Wire[i].op # "data"
 \* was already waiting for the lock / the executor is written after the Close frame
 NoDataAfterCloseOnWire ==
     \A i, j \in 1..Len(Wire) : (i < j /\ Wire[i].op = "close") => Wire[j].op # "data"
+
+\* what goes out is what the caller put into the buffer; the caller's buffers are left alone
+PayloadIntact == \A i \in 1..Len(Wire) : Wire[i].content = "orig"
+CallerBufferIntact == \A b \in Bufs : v.bufs[b] = "orig"
 
 LockSafety == (v.comp # None => v.held)
 
